@@ -22,7 +22,7 @@ RULE = ("Random interleavings (5-80 operations) of quotes and discontinuations o
         "contains a discontinuation followed by a quote for the same contract, or a chain-addressed quote after a roll.")
 ASSUMPTIONS = ["a quote is 'accepted' iff its book is alive; rejected quotes must not be appended to the history"]
 REQUIRED = ["C14:price", "C14:alive", "C14:history", "C14:sides", "C14:chain-key-is-lead", "C14:string-key-same-book", "C14:vectors"]
-REQUIRED_CATS = ["chain-from-explicit-subset-plus-class", "refused-query-then-carry-on", "late-print-stamped-before-discontinuation", "chain-quote-built-before-roll", "quote-type:int", "quote-type:npint", "quote-type:f32", "chain-from-unsorted-list", "quote:one-side-only", "query:sparse", "query:all-keys-every-op", "op:disc", "op:chainq", "op:strq", "quote-after-death", "chain-after-roll"]
+REQUIRED_CATS = ["user-chain-with-own-roll-rule", "chain-from-explicit-subset-plus-class", "refused-query-then-carry-on", "late-print-stamped-before-discontinuation", "chain-quote-built-before-roll", "quote-type:int", "quote-type:npint", "quote-type:f32", "chain-from-unsorted-list", "quote:one-side-only", "query:sparse", "query:all-keys-every-op", "op:disc", "op:chainq", "op:strq", "quote-after-death", "chain-after-roll"]
 TECHNIQUE = "runtime monitoring: executable reference model (dict of books) compared after every operation of generated histories"
 LEVEL_TEXT = ("Exploration: history + executable model. Every generated quote/discontinuation history is replayed against a small "
               "deterministic model and every observable of every book is compared after each operation.")
@@ -32,6 +32,20 @@ LEVEL_NOTE = ("Trusted: the 20-line model. Mutation audit: dead book revived, te
 
 def same(a, b):
     return (a == b) or (a != a and b != b)
+
+
+class EarlyRollChain(FutureChain):
+    """A user chain that rolls `roll` before the last trading date of the front contract."""
+
+    def __init__(self, *args, roll=timedelta(days=10), **kwargs):
+        super().__init__(*args, **kwargs)
+        self.roll = roll
+
+    def lead_contract(self, now=None, month=0):
+        if now is None:
+            now = self.now
+        live = [c for c in self.contracts if c.last_trading_date - self.roll > now]
+        return live[month]
 
 
 def case(ctx, i, tier):
@@ -55,6 +69,14 @@ def case(ctx, i, tier):
             rng.shuffle(listed)
             ch = FutureChain(contracts=listed)                  # same chain given as an unsorted explicit list
         ctx.cat("chain-from-unsorted-list")
+    roll_td = timedelta(0)
+    if rng.random() < 0.25:
+        # a user-defined chain with its OWN roll rule (lead_contract overridden: leave the front contract some days
+        # before its last trading date): the chain key addresses the book of the contract THAT rule designates
+        roll_td = timedelta(days=rng.choice([5, 10, 30]))
+        ch = EarlyRollChain(contracts=list(members), roll=roll_td) if rng.random() < 0.5 else EarlyRollChain(fcls, "2019-01", "2021-12", roll=roll_td)
+        members = list(ch.contracts)
+        ctx.cat("user-chain-with-own-roll-rule")
     ctx.check("C14:chain-members-as-given", len(ch.contracts) == len(members) and all(a is b for a, b in zip(ch.contracts, members)),
               got=[c.symbol for c in ch.contracts][:8], want=[c.symbol for c in members][:8])
     objs = {"A": ETF("A"), "B": Stock("B"), "I": Index("I"), "SPY": ETF("SPY")}
@@ -84,7 +106,7 @@ def case(ctx, i, tier):
         if t > datetime(2020, 8, 1):
             t = datetime(2020, 8, 1)
         AbstractContract.now = t
-        lead = [c for c in members if c.last_trading_date > t][0]
+        lead = [c for c in members if c.last_trading_date - roll_td > t][0]
         if lead0 is None:
             lead0 = lead
         op = rng.choice(["q", "q", "q", "disc", "chainq", "strq"])
